@@ -48,6 +48,23 @@ impl<T: PestParser> Parser for T {
             input.as_ref(),
             "parts of the input where not parsed"
         );
+        // Numerals and arities are matched by the grammars as arbitrarily long digit sequences,
+        // but must fit into the integer types of the syntax tree
+        for pair in pairs.clone().flatten() {
+            let fits = match format!("{:?}", pair.as_rule()).as_str() {
+                "integer" | "numeral" => pair.as_str().parse::<isize>().is_ok(),
+                "arity" => pair.as_str().parse::<usize>().is_ok(),
+                _ => true,
+            };
+            if !fits {
+                return Err(pest::error::Error::new_from_span(
+                    pest::error::ErrorVariant::CustomError {
+                        message: format!("the number `{}` is out of range", pair.as_str()),
+                    },
+                    pair.as_span(),
+                ));
+            }
+        }
         pairs.next_back(); // remove EOI
         Ok(Self::translate_pairs(pairs))
     }
